@@ -72,6 +72,7 @@ MUST_OBSERVE = [
     "duplicate_link_cases",
     "future_resumes_compared",
     "source_probe_cross_deliveries",
+    "sent_while_target_down_delivered_after_restart",
 ]
 
 NS = 1_000_000_000
@@ -537,6 +538,57 @@ def _decorate(rng: random.Random, case: dict, profile: str, weff: float, last_pi
         case["flags"] = flags
     if cancels:
         case["cancels"] = cancels
+
+    # -- node faults (CrashNode / PauseNode) on entities that receive events, aimed at cross-partition messages:
+    #    sent while the target is down and due after the restart, and the converse shapes.  Fault instants never
+    #    coincide with a possible delivery / resumption instant (inside one timestamp the order is free).
+    if case["links"] and (profile == "faults" or rng.random() < 0.1):
+        tm = _script_times(case)
+        busy = {t for t, _c, _e in tm.values()} | {c for _t, c, _e in tm.values() if c is not None}
+
+        def free(ns):
+            ns = max(ns, start_ns + 1)
+            for _ in range(50):
+                at = ns / NS
+                if _fault_ns(at) not in busy and _fault_ns(at) > start_ns:
+                    return at
+                ns += 1
+            return None
+
+        cross = [
+            (pid, c, t, e)
+            for pid, (t, c, e) in tm.items()
+            if pid in info_parent and part_of[tm[info_parent[pid]][2]] != part_of[e] and t - c >= 4
+        ]
+        faults = []
+        for _ in range(rng.choice([1, 1, 2, 3])):
+            if cross and rng.random() < 0.85:
+                pid, snd, arr, ent = rng.choice(cross)
+                shape = rng.choice(["down-at-send", "down-at-send", "down-at-send", "down-at-arrival", "down-throughout", "down-in-between"])
+                gap = arr - snd
+                if shape == "down-at-send":
+                    a, b = snd - rng.choice([1, 2, gap // 2, gap, 3 * gap]), snd + rng.randrange(1, gap)
+                elif shape == "down-at-arrival":
+                    a, b = snd + rng.randrange(1, gap), arr + rng.choice([1, gap, 5 * gap])
+                    if rng.random() < 0.3:
+                        b = None
+                elif shape == "down-throughout":
+                    a, b = snd - rng.choice([1, gap]), arr + rng.choice([1, gap])
+                else:
+                    a = snd + rng.randrange(1, max(2, gap - 1))
+                    b = a + rng.randrange(1, max(2, arr - a))
+            else:
+                ent = rng.choice(sorted(part_of))
+                a = start_ns + rng.randrange(1, max(2, tmax - start_ns + w_ns))
+                b = a + rng.randrange(1, 4 * w_ns + 2)
+            fa = free(a)
+            fb = None if b is None else free(max(b, (a if fa is None else _fault_ns(fa)) + 1))
+            if fa is None or (b is not None and (fb is None or _fault_ns(fb) <= _fault_ns(fa))):
+                continue
+            kind = "pause" if (fb is not None and rng.random() < 0.4) else "crash"
+            faults.append([kind, ent, fa, fb])
+        if faults:
+            case["faults"] = faults
     if any(f.get("daemon") for f in flags.values()) and case["end_ns"] is None:
         case["end_ns"] = max(t for t, _c, _e in _script_times(case).values()) + w_ns
 
@@ -830,6 +882,37 @@ def _members(case, ents, names):
     }
 
 
+def _fault_ns(x: float) -> int:
+    """Nanosecond at which the library stamps a fault given in float seconds (Instant.from_seconds truncates)."""
+    return int(x * NS)
+
+
+def _down_windows(case) -> dict:
+    """entity -> [(down_from_ns, up_at_ns | None)] of the generated CrashNode / PauseNode faults."""
+    out: dict = {}
+    for _kind, ent, at, end in case.get("faults") or []:
+        out.setdefault(ent, []).append((_fault_ns(at), None if end is None else _fault_ns(end)))
+    return out
+
+
+def _is_down(windows, ent, t_ns) -> bool:
+    return any(a <= t_ns and (b is None or t_ns < b) for a, b in windows.get(ent, ()))
+
+
+def _fault_schedule(case, names):
+    """A FaultSchedule holding the case's node faults for the given entities (None if there are none)."""
+    mine = [f for f in case.get("faults") or [] if f[1] in names]
+    if not mine:
+        return None
+    from happysimulator.faults.node_faults import CrashNode, PauseNode
+    from happysimulator.faults.schedule import FaultSchedule
+
+    fs = FaultSchedule()
+    for kind, ent, at, end in mine:
+        fs.add(PauseNode(ent, start=at, end=end) if kind == "pause" else CrashNode(ent, at=at, restart_at=end))
+    return fs
+
+
 def _init_events(case, ents):
     """Pre-run events, in case order; daemon flags applied, pre-run cancellations done, all registered
     in their partition's registry so that handlers can cancel them."""
@@ -1033,6 +1116,8 @@ def _expected_windows(case) -> int:
     w = case["window"] if case["window"] is not None else min(l[2] for l in case["links"])
     w_ns = max(1, int(w * NS))
     tmax = max([t for t, _c, _e in _script_times(case).values()] + [case["start_ns"]])
+    for a, b in (w for ws in _down_windows(case).values() for w in ws):  # fault events keep the heaps non-empty
+        tmax = max(tmax, a, b or 0)
     last = tmax if case["end_ns"] is None else min(case["end_ns"], tmax + w_ns)
     return (last - case["start_ns"]) // w_ns + 3
 
@@ -1049,7 +1134,12 @@ def run_sequential(case, groups=None):
     try:
         with _CapProbe() as probe:
             if groups is None:
-                sim = Simulation(start_time=Instant(case["start_ns"]), end_time=end, **_members(case, ents, list(ents)))
+                sim = Simulation(
+                    start_time=Instant(case["start_ns"]),
+                    end_time=end,
+                    fault_schedule=_fault_schedule(case, list(ents)),
+                    **_members(case, ents, list(ents)),
+                )
                 for _e, ev in _init_events(case, ents):
                     sim.schedule(ev)
                 status = probe.run(sim)
@@ -1057,7 +1147,12 @@ def run_sequential(case, groups=None):
                 sims = []
                 for names in case["parts"]:
                     sims.append(
-                        Simulation(start_time=Instant(case["start_ns"]), end_time=end, **_members(case, ents, names))
+                        Simulation(
+                            start_time=Instant(case["start_ns"]),
+                            end_time=end,
+                            fault_schedule=_fault_schedule(case, names),
+                            **_members(case, ents, names),
+                        )
                     )
                 for e, ev in _init_events(case, ents):
                     sims[part_of[e]].schedule(ev)
@@ -1087,7 +1182,10 @@ def run_parallel(case, perturb_seed=None):
 
             dist = ConstantLatency(const)
         links.append(PartitionLink(f"P{a}", f"P{b}", lat, latency=dist))
-    partitions = [SimulationPartition(name=f"P{p}", **_members(case, ents, names)) for p, names in enumerate(case["parts"])]
+    partitions = [
+        SimulationPartition(name=f"P{p}", fault_schedule=_fault_schedule(case, names), **_members(case, ents, names))
+        for p, names in enumerate(case["parts"])
+    ]
     out = {"exc": None, "exc_type": None, "exc_text": None, "status": "completed", "barriers": [], "lines": 0, "yields": 0}
     tt = _TTCapture()
     lg = logging.getLogger("happysimulator.core.simulation")
@@ -1185,6 +1283,7 @@ def check_parallel_against(case, par, seq, res: Result, tag: str):
     comp_co = "WindowedCoordinator"
     barriers = par["barriers"]
     res.count("barriers_seen", len(barriers))
+    down = _down_windows(case)
 
     # -- the run itself
     if par["status"] == "exception":
@@ -1270,6 +1369,8 @@ def check_parallel_against(case, par, seq, res: Result, tag: str):
             return comp_sim, "dest-ran-past-window-barrier", text + f"; P{dst} delivered an event stamped {overshoot[0]} in the window that ended at {overshoot[1]}"
         if end_ns is not None and arrival == end_ns and bidx == len(barriers) - 1:
             return comp_co, "due-at-end-time-exchanged-at-final-barrier", text
+        if _is_down(down, info[pid]["target"], stime):
+            return "make_event_router", "target-down-at-send-time-up-at-arrival", text + "; the target was crashed/paused when the event was sent"
         return comp_co, "other", text
 
     for etime, cur, typ in par["tt"]:
@@ -1401,6 +1502,8 @@ def check_parallel_against(case, par, seq, res: Result, tag: str):
             if end_ns is not None and arr > end_ns:
                 continue
             res.count("cross_sends_checked")
+            if _is_down(down, info[pid]["target"], arr):
+                continue  # the target is crashed / paused when it arrives: dropped in every engine
             if par_count[pid] == 0 and pid not in explained and pid not in missing_roots:
                 res.add(
                     "cross-event-lost",
@@ -1467,6 +1570,15 @@ def run_linked(case: dict) -> Result:
         sum(1 for pl in seq["plogs"] for r in pl if r[0] == "c") + sum(1 for f in fl.values() if f.get("cancelled")),
     )
     res.count("duplicate_link_cases", int(len({(l[0], l[1]) for l in case["links"]}) < len(case["links"])))
+    if case.get("faults"):
+        dw = _down_windows(case)
+        info1, _ = _script_index(case)
+        delivered = {r[3] for l in seq["logs"].values() for r in _restrict(l, case["end_ns"])}
+        res.count(
+            "sent_while_target_down_delivered_after_restart",
+            sum(1 for pl in seq["plogs"] for r in pl if r[0] == "x" and r[2] in delivered and _is_down(dw, info1[r[2]]["target"], r[1])),
+        )
+        res.count("fault_windows", len(case["faults"]))
     roles = case.get("roles") or {}
     if roles:
         info0, _ = _script_index(case)
@@ -1723,14 +1835,15 @@ FAMILIES = {
     "duplinks": Family("duplinks", gen_profile("duplinks"), run_linked, shrink=shrink_script, case_timeout=120.0),
     "futures": Family("futures", gen_profile("futures"), run_linked, shrink=shrink_script, case_timeout=120.0),
     "members": Family("members", gen_profile("members"), run_linked, shrink=shrink_script, case_timeout=120.0),
+    "faults": Family("faults", gen_profile("faults"), run_linked, shrink=shrink_script, case_timeout=120.0),
     "independent": Family("independent", gen_independent, run_independent, case_timeout=120.0),
     "config": Family("config", gen_config, run_config, case_timeout=60.0),
 }
 
 BUDGET = {
     "quick": {
-        "linked": 110,
-        "boundary": 80,
+        "linked": 95,
+        "boundary": 70,
         "idle": 24,
         "far_epoch": 40,
         "latency_link": 40,
@@ -1740,6 +1853,7 @@ BUDGET = {
         "duplinks": 20,
         "futures": 40,
         "members": 30,
+        "faults": 40,
         "independent": 50,
         "config": 30,
     },
@@ -1755,6 +1869,7 @@ BUDGET = {
         "duplinks": 200,
         "futures": 600,
         "members": 400,
+        "faults": 500,
         "independent": 600,
         "config": 100,
     },
